@@ -323,6 +323,15 @@ def run(report: core.Report):
             if (q, e) in AMBIENT_ALLOWED:
                 r3.note(f"allowed {q} -> {e}: {AMBIENT_ALLOWED[(q, e)]}")
                 continue
+            # the same read in a helper of the options module that is reached through Options.build (a nested closure moved to module level)
+            OB = "gapic.utils.options.Options.build"
+            if (OB, e) in AMBIENT_ALLOWED and q.startswith("gapic.utils.options.") and OB in cg.path(pred, q) \
+                    and not any(q in cg.external.get(c_, ()) for c_ in ()):
+                callers = [c_ for c_ in pm.functions if c_ != q and any(isinstance(n_, ast.Call) and dotted(n_.func) == q.rsplit(".", 1)[1]
+                                                                         for n_ in ast.walk(pm.functions[c_].node))]
+                if all(c_.startswith(OB) or c_ == OB for c_ in callers):
+                    r3.note(f"allowed {q} (helper of {OB}) -> {e}: {AMBIENT_ALLOWED[(OB, e)]}")
+                    continue
             r3.violation(fi.module.path, fi.node.lineno, f"{q} -> {e}",
                          f"ambient input ({why}) reachable on the generation path: " + " -> ".join(cg.path(pred, q)[-5:]))
         r3.ok()
